@@ -406,7 +406,7 @@ func (in *Interp) interceptByPackage(fn *ssa.Function, name string, args []Value
 	if path != in.repoMod+"/special" {
 		return nil, false
 	}
-	if fn.Signature.Recv() != nil || !fn.Object().Exported() {
+	if fn.Signature.Recv() != nil || fn.Object() == nil || !fn.Object().Exported() {
 		return nil, false
 	}
 	if in.specialBodies[fn.Name()] {
